@@ -64,6 +64,14 @@ THEOREMS = [
     'Nb.C17.image_data_base64',
     'Nb.C17.writer_names_parse_back',
     'Nb.C17.image_xml_roundtrip_gifti',
+    'Nb.C17.serialise_depends_on_current_state_only',
+    'Nb.C17.history_kth_output',
+    'Nb.C17.history_roundtrip',
+    'Nb.C17.inplace_edit_reaches_every_holder',
+    'Nb.C17.endian_attribute_invisible',
+    'Nb.C17.gen_get_arrays_from_intent',
+    'Nb.C17.gen_remove_by_intent',
+    'Nb.C17.gen_numDA',
 ]
 ASSUMPTIONS = [
     'hand-written Lean model of GiftiImage container methods, GiftiImageParser handlers/flush_chardata and '
@@ -188,7 +196,25 @@ def regen():
            f'def nativeBig : Bool := {"true" if sys.byteorder == "big" else "false"}',
            '', 'end Nb.C17.Gen', '']
     write_if_changed(os.path.join(LEAN, 'NibabelModel', 'Generated', 'C17Codes.lean'), '\n'.join(out))
-    return ['Nb.C17.Gen.codes', 'Nb.C17.Gen.giftiDtypes', 'Nb.C17.Gen.names']
+    # stage T: the container methods themselves, translated statement by statement from the working tree
+    import py2lean
+    import py2lean_c17
+    G = g.GiftiImage
+    hdr = ('/-! GENERATED by harness/props/c17.py regen() from the working tree of nibabel (nibabel/gifti/gifti.py):\n'
+           '    `GiftiImage.numDA / get_arrays_from_intent / remove_gifti_data_array_by_intent` translated with\n'
+           '    harness/py2lean_c17.py (`self.darrays` = value parameter, `intent_codes.code[..]` = callable parameter,\n'
+           '    a data array object = the tuple (id, intent)).  Do not edit: rewritten on every run.  Core Lean only. -/')
+    try:
+        numda = G.numDA.fget if isinstance(G.__dict__.get('numDA'), property) else G.numDA
+        text, _ = py2lean_c17.translate_methods(
+            [(numda, 'numDA'), (G.get_arrays_from_intent, 'get_arrays_from_intent'),
+             (G.remove_gifti_data_array_by_intent, 'remove_gifti_data_array_by_intent')], 'Nb.Gen.C17F', hdr)
+    except (py2lean.Untranslatable, Exception) as e:           # noqa: B014 - the obligation is then broken on purpose
+        text = ('import NibabelModel.Basic.PyVal\n' + hdr + '\n-- NOT TRANSLATABLE: ' + str(e).replace('\n', ' ')[:300] +
+                '\nnamespace Nb.Gen.C17F\nend Nb.Gen.C17F\n')
+    write_if_changed(os.path.join(LEAN, 'NibabelModel', 'Generated', 'C17Funcs.lean'), text)
+    return ['Nb.C17.Gen.codes', 'Nb.C17.Gen.giftiDtypes', 'Nb.C17.Gen.names', 'Nb.Gen.C17F.get_arrays_from_intent',
+            'Nb.Gen.C17F.remove_gifti_data_array_by_intent', 'Nb.Gen.C17F.numDA']
 
 
 # ------------------------------------------------------------------------------------------ helpers
@@ -494,10 +520,12 @@ def impl_space(case):
 
 # ------------------------------------------------------------------------------------------ block
 
-def encode_payload(arr, enc, endian, order, layout='nib'):
-    """independent writer of a <Data> payload (NumPy tobytes + Python base64/zlib; own text layout)"""
+def encode_payload(arr, enc, endian, order, layout='nib', fmt_kind=None):
+    """independent writer of a <Data> payload (NumPy tobytes + Python base64/zlib; own text layout).
+    `fmt_kind`: kind of the DECLARED data type when it differs from the array's (the ASCII writer formats the values
+    the array holds with the format of the declared kind, without casting)"""
     if enc == 'ASCII':
-        fmt = '%d' if arr.dtype.kind in 'ui' else '%10.6f'
+        fmt = '%d' if (fmt_kind or arr.dtype.kind) in 'ui' else '%10.6f'
         if layout == 'col' or arr.ndim == 1:
             return '\n'.join(fmt % x for x in arr.ravel(order).tolist())
         a2 = arr if arr.ndim == 2 else (arr.reshape((-1, arr.shape[-1]), order='C') if order == 'C'
@@ -1123,6 +1151,822 @@ def wevents_cases(rng, tier):
     return out
 
 
+# ------------------------------------------------------------------------------------------ whist (object histories)
+# ONE image object: serialise -> mutate -> serialise ... ; the k-th output must describe the image as it is at the
+# k-th serialisation.  An op list is interpreted three times: on nibabel objects (impl_whist), on plain dicts
+# (_WRef: the independent reference; also supplies the external <Data> texts) and by the Lean object model (runLit).
+
+STD_END = {'big': 1, 'little': 2}
+DT_OF_CODE = {2: 'uint8', 8: 'int32', 16: 'float32'}
+ENC_OF_CODE = {1: 'ASCII', 2: 'B64BIN', 3: 'B64GZ'}
+ORD_OF_CODE = {1: 'C', 2: 'F'}
+SER_METHODS = ['to_xml', 'to_bytes', 'to_filename', 'save', 'to_stream', 'to_file_map', 'to_file_map_default']
+SER_MODES = [None, None, 'strict', 'compat', 'force']
+WIDEN = {'uint8': ['int32', 'float32'], 'int32': ['float32'], 'float32': []}
+
+
+def conv_bits(bits, mdt, dt):
+    """bit patterns of the values of a `mdt` array converted BY VALUE to `dt` (only exact / IEEE-rounded widenings)"""
+    if mdt == dt:
+        return list(bits)
+    if mdt == 'uint8' and dt == 'int32':
+        return list(bits)
+    vals = bits if mdt == 'uint8' else [b - 2 ** 32 if b >= 2 ** 31 else b for b in bits]
+    if dt == 'float32' and mdt in ('uint8', 'int32'):
+        return [f32_bits(float(v)) for v in vals]
+    raise ValueError('unsupported conversion %s -> %s' % (mdt, dt))
+
+
+def native_endian():
+    import sys
+    return 'BigEndian' if sys.byteorder == 'big' else 'LittleEndian'
+
+
+class _WRef:
+    """reference interpreter of a whist op list on plain Python values (no nibabel)"""
+
+    def __init__(self):
+        self.version = '1.0'
+        self.gmeta = {}
+        self.labels = []
+        self.darrays = []
+        self.das = {}
+        self.nds = {}
+        self.snaps = []       # image descriptions at the serialisation points
+        self.q = {}           # external <Data> texts needed by the Lean model
+
+    def _da(self, pos):
+        if not 0 <= pos < len(self.darrays):
+            raise IndexError(pos)
+        return self.das[self.darrays[pos]]
+
+    def describe(self):
+        arrays = []
+        for i in self.darrays:
+            da = self.das[i]
+            nd = self.nds[da['nd']]
+            cb = conv_bits(nd['bits'], nd['dt'], da['dt'])
+            if int(np.prod(da['dims'])) != len(cb):
+                raise ValueError('dims inconsistent with data')
+            arr = arr_from_bits(da['dt'], nd['shape'], cb)
+            exp = arr.ravel(order=da['ord']).reshape(da['dims'], order=da['ord'])
+            arrays.append({'dt': da['dt'], 'shape': list(da['dims']), 'bits': bits_of(exp), 'intent': da['intent'],
+                           'enc': da['enc'], 'ord': da['ord'], 'endian': native_endian(),
+                           'meta': [[k, v] for k, v in da['meta'].items()], 'cs': da['cs'],
+                           'ext': [da['fname'], da['off']]})
+            key = (STD_ENC[da['enc']], STD_DT[da['dt']], STD_ORD[da['ord']], STD_DT[nd['dt']], tuple(nd['shape']),
+                   tuple(nd['bits']))
+            if key not in self.q:
+                if da['enc'] == 'ASCII':        # values as held in memory, format of the declared kind
+                    self.q[key] = encode_payload(arr_from_bits(nd['dt'], nd['shape'], nd['bits']), 'ASCII', native_endian(),
+                                                 da['ord'], fmt_kind=DTYPES[da['dt']][0])
+                else:
+                    self.q[key] = encode_payload(arr, da['enc'], native_endian(), da['ord'])
+        return {'arrays': arrays, 'meta': [[k, v] for k, v in self.gmeta.items()],
+                'labels': [[l['key'], l['text'], l['rgba']] for l in self.labels], 'buf': 0, 'variant': 'plain',
+                'version': self.version}
+
+    def reloadable(self):
+        return all(self.nds[self.das[i]['nd']]['dt'] == self.das[i]['dt'] for i in self.darrays)
+
+    def apply(self, op):
+        k = op[0]
+        if k == 'X':
+            self.snaps.append(self.describe())
+        elif k == 'Y':
+            if not self.reloadable():
+                raise ValueError('reload with a cast pending')
+            d = self.describe()
+            self.snaps.append(d)
+            base = op[2]
+            new = []
+            for p, (i, a) in enumerate(zip(self.darrays, d['arrays'])):
+                self.nds[base + p] = {'dt': a['dt'], 'shape': list(a['shape']), 'bits': list(a['bits'])}
+                self.das[base + p] = dict(self.das[i], nd=base + p, meta=dict(self.das[i]['meta']), endian=STD_END['little'])
+                new.append(base + p)
+            self.darrays = new
+            self.gmeta = dict(self.gmeta)
+            self.labels = [dict(l) for l in self.labels]
+        elif k == 'V':
+            self.version = op[1]
+        elif k == 'G':
+            self.gmeta[op[1]] = op[2]
+        elif k == 'Gd':
+            del self.gmeta[op[1]]
+        elif k == 'Gn':
+            self.gmeta = dict((a, b) for a, b in op[1])
+        elif k == 'L':
+            self.labels.append({'key': op[1], 'text': op[2], 'rgba': op[3]})
+        elif k == 'Ls':
+            self.labels[op[1]].update(key=op[2], text=op[3], rgba=op[4])
+        elif k == 'Ld':
+            del self.labels[op[1]]
+        elif k == 'Ln':
+            self.labels = []
+        elif k == 'N':
+            self.nds[op[1]] = {'dt': op[2], 'shape': list(op[3]), 'bits': list(op[4])}
+        elif k == 'O':
+            f = op[3]
+            nd = self.nds[op[2]]
+            self.das[op[1]] = {'nd': op[2], 'intent': f['intent'], 'dt': f['dt'] or nd['dt'], 'enc': f['enc'],
+                               'ord': f['ord'], 'endian': f['endian'], 'dims': list(nd['shape']),
+                               'meta': dict((a, b) for a, b in f['meta']), 'cs': f['cs'], 'fname': f['fname'],
+                               'off': f['off']}
+        elif k == 'A':
+            if op[1] not in self.das:
+                raise KeyError(op[1])
+            self.darrays.append(op[1])
+        elif k == 'P':
+            n, i = len(self.darrays), op[1]
+            if not -n <= i < n:
+                raise IndexError(i)
+            del self.darrays[i]
+        elif k == 'R':
+            self.darrays = [i for i in self.darrays if self.das[i]['intent'] != op[1]]
+        elif k == 'E':
+            nd = self.nds[self._da(op[1])['nd']]
+            if len(op[3]) != len(nd['bits']):
+                raise ValueError('size')
+            nd['bits'] = list(op[3])
+        elif k == 'F':
+            da, f, v = self._da(op[1]), op[2], op[3]
+            if f == 'intent':
+                da['intent'] = v
+            elif f == 'datatype':
+                da['dt'] = v
+            elif f == 'ord':
+                da['ord'] = v
+            elif f == 'enc':
+                da['enc'] = v
+            elif f == 'endian':
+                da['endian'] = v
+            elif f == 'dims':
+                da['dims'] = list(v)
+            elif f == 'ext':
+                da['fname'], da['off'] = v
+            elif f == 'mset':
+                da['meta'][v[0]] = v[1]
+            elif f == 'mdel':
+                del da['meta'][v]
+            elif f == 'mnew':
+                da['meta'] = dict((a, b) for a, b in v)
+            elif f == 'cs':
+                da['cs'] = v
+            elif f == 'data':
+                if v not in self.nds:
+                    raise KeyError(v)
+                da['nd'] = v
+            else:
+                raise ValueError(op)
+        else:
+            raise ValueError(op)
+
+
+def _mtext(cs):
+    cs = cs or {'ds': 0, 'xs': 0, 'xf': np.identity(4).tolist()}
+    return cs['ds'], cs['xs'], '\n'.join(' '.join('%10.6f' % x for x in row) for row in cs['xf'])
+
+
+def _label_tok(key, text, rgba):
+    cols = ['_' if (rgba is None or x is None) else enc_text(str(float(x))) for x in (rgba or [None] * 4)]
+    return [str(key), enc_text(text)] + cols
+
+
+def whist_line(ops):
+    ref = _WRef()
+    toks = ['C17 whist']
+    for op in ops:
+        k = op[0]
+        # E ops: the in-place edit is applied to the ndarray the data array at `pos` holds NOW
+        ref.apply(op)
+        if k == 'X':
+            toks.append('X')
+        elif k == 'Y':
+            toks += ['X', 'Y~%d' % op[2]]
+        elif k == 'V':
+            toks.append('V~' + enc_text(op[1]))
+        elif k == 'G':
+            toks.append('G~' + pair_tok(op[1:3]))
+        elif k == 'Gd':
+            toks.append('Gd~' + enc_text(op[1]))
+        elif k == 'Gn':
+            toks.append('~'.join(['Gn'] + [pair_tok(kv) for kv in op[1]]))
+        elif k == 'L':
+            toks.append('~'.join(['L'] + _label_tok(*op[1:4])))
+        elif k == 'Ls':
+            toks.append('~'.join(['Ls', str(op[1])] + _label_tok(*op[2:5])))
+        elif k == 'Ld':
+            toks.append('Ld~%d' % op[1])
+        elif k == 'Ln':
+            toks.append('Ln')
+        elif k == 'N':
+            toks.append('~'.join(['N', str(op[1]), str(STD_DT[op[2]]), ','.join(map(str, op[3])) or '-',
+                                  ','.join(map(str, op[4])) or '-']))
+        elif k == 'O':
+            f = op[3]
+            da = ref.das[op[1]]
+            ds, xs, mt = _mtext(f['cs'])
+            toks.append('~'.join(['O', str(op[1]), str(op[2]), str(f['intent']), str(STD_DT[da['dt']]), str(STD_ORD[f['ord']]),
+                                  str(STD_ENC[f['enc']]), str(STD_END[f['endian']]), ','.join(map(str, da['dims'])) or '-',
+                                  enc_text(f['fname']), str(f['off']), str(ds), str(xs), enc_text(mt)] +
+                                 [pair_tok(kv) for kv in f['meta']]))
+        elif k == 'A':
+            toks.append('A~%d' % op[1])
+        elif k == 'P':
+            toks.append('P~%d' % op[1])
+        elif k == 'R':
+            toks.append('R~%d' % op[1])
+        elif k == 'E':
+            toks.append('E~%d~%s' % (op[1], ','.join(map(str, op[3])) or '-'))
+        elif k == 'F':
+            f, v = op[2], op[3]
+            head = ['F', str(op[1])]
+            if f == 'intent':
+                toks.append('~'.join(head + ['intent', str(v)]))
+            elif f == 'datatype':
+                toks.append('~'.join(head + ['datatype', str(STD_DT[v])]))
+            elif f == 'ord':
+                toks.append('~'.join(head + ['ord', str(STD_ORD[v])]))
+            elif f == 'enc':
+                toks.append('~'.join(head + ['enc', str(STD_ENC[v])]))
+            elif f == 'endian':
+                toks.append('~'.join(head + ['endian', str(v)]))
+            elif f == 'dims':
+                toks.append('~'.join(head + ['dims', ','.join(map(str, v)) or '-']))
+            elif f == 'ext':
+                toks.append('~'.join(head + ['ext', enc_text(v[0]), str(v[1])]))
+            elif f == 'mset':
+                toks.append('~'.join(head + ['mset', pair_tok(v)]))
+            elif f == 'mdel':
+                toks.append('~'.join(head + ['mdel', enc_text(v)]))
+            elif f == 'mnew':
+                toks.append('~'.join(head + ['mnew'] + [pair_tok(kv) for kv in v]))
+            elif f == 'cs':
+                ds, xs, mt = _mtext(v)
+                toks.append('~'.join(head + ['cs', str(ds), str(xs), enc_text(mt)]))
+            elif f == 'data':
+                toks.append('~'.join(head + ['data', str(v)]))
+    for (enc, dt, ord_, mdt, shape, bits), text in ref.q.items():
+        toks.append('~'.join(['Q', str(enc), str(dt), str(ord_), str(mdt), ','.join(map(str, shape)) or '-',
+                              ','.join(map(str, bits)) or '-', enc_text(text)]))
+    return ' '.join(toks), ref
+
+
+def mk_whist(ops, stream='whist'):
+    ops = json.loads(json.dumps(ops))
+    line, ref = whist_line(ops)
+    nser = len(ref.snaps)
+    c = Case(line, {'op': 'whist', 'ops': ops, 'stream': stream}, ('whist', json.dumps(ops)) if nser else None, stream)
+    c.extra = {'snaps': ref.snaps}
+    return c
+
+
+def events_tokens(xml_bytes):
+    """handler calls expat makes on a document (default buffer), adjacent character-data calls merged"""
+    g, p, u, n1 = _mods()
+    events = []
+
+    class Rec(p.GiftiImageParser):
+        def StartElementHandler(self, name, attrs):
+            events.append(('S', name, dict(attrs)))
+            return super().StartElementHandler(name, attrs)
+
+        def EndElementHandler(self, name):
+            events.append(('E', name))
+            return super().EndElementHandler(name)
+
+        def CharacterDataHandler(self, data):
+            events.append(('C', data))
+            return super().CharacterDataHandler(data)
+    parser = Rec()
+    parser.parse(string=xml_bytes)
+    toks, pend = [], []
+    for ev in events:
+        if ev[0] == 'C':
+            pend.append(ev[1])
+            continue
+        if pend:
+            toks.append('C~' + enc_text(''.join(pend)))
+            pend = []
+        if ev[0] == 'S':
+            toks.append('~'.join(['S', ev[1]] + [f'{k}={enc_text(v)}' for k, v in ev[2].items()]))
+        else:
+            toks.append('E~' + ev[1])
+    return ' '.join(toks), parser.img
+
+
+def _set_label(g, lab, key, text, rgba):
+    lab.key = key
+    lab.label = text
+    lab.red, lab.green, lab.blue, lab.alpha = rgba if rgba else (None, None, None, None)
+
+
+def _mk_cs(g, cs):
+    if cs is None:
+        return None
+    return g.GiftiCoordSystem(cs['ds'], cs['xs'], np.array(cs['xf'], dtype=np.float64))
+
+
+def impl_whist(case):
+    import io
+    import tempfile
+    import nibabel as nib
+    g, p, u, n1 = _mods()
+    img = g.GiftiImage()
+    nds, das = {}, {}
+    outs, parsed = [], []
+    case.extra = dict(case.extra or {})
+    if 'snaps' not in case.extra:
+        case.extra['snaps'] = whist_line(case.data['ops'])[1].snaps
+    case.extra.update(parsed=parsed, exc=None)
+    nfile = 0
+    with tempfile.TemporaryDirectory() as tmp, warnings.catch_warnings():
+        warnings.simplefilter('ignore')
+        try:
+            for n, op in enumerate(case.data['ops']):
+                k = op[0]
+                case.extra['at'] = n
+                if k in ('X', 'Y'):
+                    method, mode = (op[1], op[2]) if k == 'X' else (op[1], None)
+                    kw = {} if mode is None else {'mode': mode}
+                    if method == 'to_xml':
+                        out = img.to_xml(**kw)
+                    elif method == 'to_bytes':
+                        out = img.to_bytes(**kw)
+                    elif method == 'to_stream':
+                        bio = io.BytesIO()
+                        img.to_stream(bio, **kw)
+                        out = bio.getvalue()
+                    elif method in ('to_filename', 'save', 'to_file_map', 'to_file_map_default'):
+                        nfile += 1
+                        path = os.path.join(tmp, 'h%d.gii' % nfile)
+                        if method == 'to_filename':
+                            img.to_filename(path, **kw)
+                        elif method == 'save':
+                            nib.save(img, path, **kw)
+                        elif method == 'to_file_map':
+                            img.to_file_map(g.GiftiImage.filespec_to_file_map(path), **kw)
+                        else:
+                            img.file_map = g.GiftiImage.filespec_to_file_map(path)
+                            img.to_file_map(**kw)
+                        with open(path, 'rb') as f:
+                            out = f.read()
+                    else:
+                        raise ValueError(op)
+                    toks, pimg = events_tokens(out)
+                    outs.append(toks)
+                    parsed.append(pimg)
+                    if k == 'Y':
+                        img = g.GiftiImage.from_bytes(out) if method != 'to_filename' else nib.load(path)
+                        base = op[2]
+                        for pos, da in enumerate(img.darrays):
+                            das[base + pos] = da
+                            nds[base + pos] = da.data
+                elif k == 'V':
+                    img.version = op[1]
+                elif k == 'G':
+                    img.meta[op[1]] = op[2]
+                elif k == 'Gd':
+                    del img.meta[op[1]]
+                elif k == 'Gn':
+                    img.meta = g.GiftiMetaData([tuple(kv) for kv in op[1]])
+                elif k == 'L':
+                    lab = g.GiftiLabel()
+                    _set_label(g, lab, op[1], op[2], op[3])
+                    img.labeltable.labels.append(lab)
+                elif k == 'Ls':
+                    _set_label(g, img.labeltable.labels[op[1]], op[2], op[3], op[4])
+                elif k == 'Ld':
+                    del img.labeltable.labels[op[1]]
+                elif k == 'Ln':
+                    img.labeltable = g.GiftiLabelTable()
+                elif k == 'N':
+                    flags = op[5] if len(op) > 5 else {}
+                    nds[op[1]] = mem_array(op[2], op[3], op[4], bool(flags.get('swap')), bool(flags.get('fmem')))
+                elif k == 'O':
+                    f = op[3]
+                    das[op[1]] = g.GiftiDataArray(nds[op[2]], intent=f['intent'], datatype=f['dt'], encoding=f['enc'],
+                                                  endian=f['endian'], coordsys=_mk_cs(g, f['cs']), ordering=f['ord'],
+                                                  meta=g.GiftiMetaData([tuple(kv) for kv in f['meta']]),
+                                                  ext_fname=f['fname'], ext_offset=f['off'])
+                elif k == 'A':
+                    img.add_gifti_data_array(das[op[1]])
+                elif k == 'P':
+                    img.remove_gifti_data_array(op[1])
+                elif k == 'R':
+                    img.remove_gifti_data_array_by_intent(op[1])
+                elif k == 'E':
+                    data = img.darrays[op[1]].data
+                    new = arr_from_bits(str(np.dtype(data.dtype.newbyteorder('=')).name), list(data.shape), op[3])
+                    how = op[2]
+                    if how == 'all':
+                        data[...] = new
+                    elif how == 'copyto':
+                        np.copyto(data, new)
+                    elif how == 'flat':
+                        data.flat[:] = new.ravel()
+                    else:                       # element by element, only where the value changes
+                        old = bits_of(data)
+                        for j, (a, b) in enumerate(zip(old, op[3])):
+                            if a != b:
+                                idx = np.unravel_index(j, data.shape)
+                                data[idx] = new[idx]
+                elif k == 'F':
+                    da, f, v = img.darrays[op[1]], op[2], op[3]
+                    if f == 'intent':
+                        da.intent = v
+                    elif f == 'datatype':
+                        da.datatype = STD_DT[v]
+                    elif f == 'ord':
+                        da.ind_ord = STD_ORD[v]
+                    elif f == 'enc':
+                        da.encoding = STD_ENC[v]
+                    elif f == 'endian':
+                        da.endian = v
+                    elif f == 'dims':
+                        da.dims = list(v)
+                    elif f == 'ext':
+                        da.ext_fname, da.ext_offset = v
+                    elif f == 'mset':
+                        da.meta[v[0]] = v[1]
+                    elif f == 'mdel':
+                        del da.meta[v]
+                    elif f == 'mnew':
+                        da.meta = g.GiftiMetaData([tuple(kv) for kv in v])
+                    elif f == 'cs':
+                        if len(op) > 4 and op[4] and v is not None:       # edit the coordinate system object in place
+                            da.coordsys.dataspace, da.coordsys.xformspace = v['ds'], v['xs']
+                            da.coordsys.xform[...] = np.array(v['xf'], dtype=np.float64)
+                        else:
+                            da.coordsys = _mk_cs(g, v) or g.GiftiCoordSystem()
+                    elif f == 'data':
+                        da.data = nds[v]
+                    else:
+                        raise ValueError(op)
+                else:
+                    raise ValueError(op)
+        except Exception as e:
+            case.extra['exc'] = e
+            return 'ERR:' + type(e).__name__
+    return ' | '.join(outs) if outs else '-'
+
+
+def oracle_whist(case, out):
+    ex = case.extra or {}
+    if ex.get('exc') is not None:
+        e = ex['exc']
+        op = case.data['ops'][ex.get('at', 0)]
+        return f'[whist:error] op #{ex.get("at")} {op[:3]}: {type(e).__name__}: {str(e)[:100]} in a valid history'
+    snaps, parsed = ex.get('snaps', []), ex.get('parsed', [])
+    if len(snaps) != len(parsed):
+        return f'[whist:count] {len(parsed)} outputs for {len(snaps)} serialisations'
+    sers = [i for i, op in enumerate(case.data['ops']) if op[0] in ('X', 'Y')]
+    for k, (d, img) in enumerate(zip(snaps, parsed)):
+        bad = _check_image(d, img, 1)
+        if bad is None:
+            for i, (da, a) in enumerate(zip(img.darrays, d['arrays'])):
+                if [da.ext_fname, int(da.ext_offset)] != a['ext']:
+                    bad = f'[ext] array {i}: read {[da.ext_fname, da.ext_offset]!r}, written {a["ext"]!r}'
+                    break
+        if bad:
+            tag, rest = bad.split(']', 1)
+            return (f'{tag}:history] output #{k} (op #{sers[k]} {case.data["ops"][sers[k]][1]}) does not describe the image '
+                    f'as it is at that serialisation:{rest}')
+    return None
+
+
+W_INTENTS = [0, 1002, 1008, 1009, 2001, 2005]
+
+
+def rand_bits_w(rng, dt, n, exact):
+    if dt == 'float32' and exact:
+        return [f32_bits(rng.randrange(-6400, 6400) / 64.0) for _ in range(n)]
+    return rand_bits(rng, dt, n, True)
+
+
+def rand_shape_w(rng):
+    nd = rng.choice([1, 1, 2, 2, 3])
+    shape = [rng.choice([1, 2, 3, 4]) for _ in range(nd)]
+    return shape
+
+
+def _rand_ser(rng, had_file):
+    m = rng.choice(SER_METHODS)
+    return ['X', m, rng.choice(SER_MODES)]
+
+
+def _same_size_dims(rng, shape):
+    n = int(np.prod(shape))
+    cands = [[n], [1, n], [n, 1]] + [[a, n // a] for a in range(2, n) if n % a == 0] + [list(shape) + [1]]
+    return rng.choice(cands)
+
+
+class _WGen:
+    """random VALID history; keeps a _WRef to know what exists"""
+
+    def __init__(self, rng, exact):
+        self.rng, self.exact = rng, exact
+        self.ref = _WRef()
+        self.ops = []
+        self.nid = 0
+
+    def emit(self, op):
+        self.ref.apply(op)
+        self.ops.append(op)
+
+    def fresh(self):
+        self.nid += 1
+        return self.nid
+
+    def new_nd(self, dt=None, shape=None):
+        rng = self.rng
+        dt = dt or rng.choice(['uint8', 'int32', 'float32'])
+        shape = shape or rand_shape_w(rng)
+        i = self.fresh()
+        self.emit(['N', i, dt, shape, rand_bits_w(rng, dt, int(np.prod(shape)), self.exact),
+                   {'swap': rng.random() < 0.25, 'fmem': rng.random() < 0.25}])
+        return i
+
+    def new_da(self, nd=None):
+        rng = self.rng
+        nd = nd if nd is not None else self.new_nd()
+        i = self.fresh()
+        mdt = self.ref.nds[nd]['dt']
+        decl = None
+        if not self.exact and rng.random() < 0.15 and WIDEN[mdt]:
+            decl = rng.choice(WIDEN[mdt])
+        elif rng.random() < 0.5:
+            decl = mdt
+        self.emit(['O', i, nd, {'intent': rng.choice(W_INTENTS), 'dt': decl, 'enc': rng.choice(['ASCII', 'B64BIN', 'B64GZ']),
+                                'ord': rng.choice('CF'), 'endian': rng.choice(['big', 'little']), 'meta': rand_meta(rng),
+                                'cs': rand_cs(rng), 'fname': rng.choice(['', '', 'ext.dat', 'a&b<c>.bin']),
+                                'off': rng.choice([0, 0, 7, 4096])}])
+        return i
+
+    def mutate(self):
+        rng, ref = self.rng, self.ref
+        n = len(ref.darrays)
+        r = rng.random()
+        if n and r < 0.30:
+            pos = rng.randrange(n)
+            nd = ref.nds[ref._da(pos)['nd']]
+            bits = list(nd['bits'])
+            new = rand_bits_w(rng, nd['dt'], len(bits), self.exact)
+            if rng.random() < 0.5 and len(bits) > 1:         # change only some elements
+                keep = rng.randrange(len(bits))
+                new = [b if j != keep else x for j, (b, x) in enumerate(zip(bits, new))] if rng.random() < 0.5 else \
+                      [x if j != keep else b for j, (b, x) in enumerate(zip(bits, new))]
+            if new == bits:
+                b = new[0]
+                if nd['dt'] == 'uint8':
+                    new[0] = (b + 1) % 256
+                elif nd['dt'] == 'int32':
+                    new[0] = (b + 1) % 2 ** 32
+                else:
+                    new[0] = f32_bits(0.5) if b != f32_bits(0.5) else f32_bits(1.5)
+            self.emit(['E', pos, rng.choice(['all', 'copyto', 'flat', 'elem']), new])
+        elif n and r < 0.38:
+            pos = rng.randrange(n)
+            da = ref._da(pos)
+            old = ref.nds[da['nd']]
+            if rng.random() < 0.6:
+                nd = self.new_nd(old['dt'], list(old['shape']))          # same dtype and shape, new object
+                self.emit(['F', pos, 'data', nd])
+            else:
+                dt = rng.choice([d for d in DTYPES if da['dt'] == d or da['dt'] in WIDEN[d]]) if not self.exact else da['dt']
+                nd = self.new_nd(dt)
+                self.emit(['F', pos, 'data', nd])
+                self.emit(['F', pos, 'dims', list(ref.nds[nd]['shape'])])
+        elif n and r < 0.46:
+            self.emit(['F', rng.randrange(n), 'enc', rng.choice(['ASCII', 'B64BIN', 'B64GZ'])])
+        elif n and r < 0.50:
+            pos = rng.randrange(n)
+            da = ref._da(pos)
+            mdt = ref.nds[da['nd']]['dt']
+            cands = [mdt] + ([] if self.exact else WIDEN[mdt])
+            self.emit(['F', pos, 'datatype', rng.choice(cands)])
+        elif n and r < 0.56:
+            self.emit(['F', rng.randrange(n), 'ord', rng.choice('CF')])
+        elif n and r < 0.59:
+            self.emit(['F', rng.randrange(n), 'endian', rng.choice([0, 1, 2])])
+        elif n and r < 0.63:
+            pos = rng.randrange(n)
+            self.emit(['F', pos, 'dims', _same_size_dims(rng, ref._da(pos)['dims'])])
+        elif n and r < 0.66:
+            self.emit(['F', rng.randrange(n), 'ext', [rng.choice(['', 'x.bin', 'é&.dat']), rng.choice([0, 1, 12345])]])
+        elif n and r < 0.74:
+            pos = rng.randrange(n)
+            da = ref._da(pos)
+            q = rng.random()
+            if q < 0.5 or not da['meta']:
+                k = rng.choice(list(da['meta'])) if da['meta'] and rng.random() < 0.5 else rand_text(rng)
+                self.emit(['F', pos, 'mset', [k, rand_text(rng)]])
+            elif q < 0.75:
+                self.emit(['F', pos, 'mdel', rng.choice(list(da['meta']))])
+            else:
+                self.emit(['F', pos, 'mnew', rand_meta(rng)])
+        elif n and r < 0.79:
+            pos = rng.randrange(n)
+            cs = rand_cs(rng)
+            self.emit(['F', pos, 'cs', cs, bool(cs is not None and rng.random() < 0.5)])
+        elif n and r < 0.82:
+            self.emit(['F', rng.randrange(n), 'intent', rng.choice(W_INTENTS)])
+        elif r < 0.87:
+            q = rng.random()
+            if q < 0.5 or not ref.gmeta:
+                k = rng.choice(list(ref.gmeta)) if ref.gmeta and rng.random() < 0.5 else rand_text(rng)
+                self.emit(['G', k, rand_text(rng)])
+            elif q < 0.8:
+                self.emit(['Gd', rng.choice(list(ref.gmeta))])
+            else:
+                self.emit(['Gn', rand_meta(rng)])
+        elif r < 0.92:
+            q = rng.random()
+            lab = rand_labels(rng) or [[3, 'lab', None]]
+            if q < 0.45 or not ref.labels:
+                self.emit(['L'] + lab[0])
+            elif q < 0.75:
+                self.emit(['Ls', rng.randrange(len(ref.labels))] + lab[0])
+            elif q < 0.93:
+                self.emit(['Ld', rng.randrange(len(ref.labels))])
+            else:
+                self.emit(['Ln'])
+        elif r < 0.96 or not n:
+            q = rng.random()
+            if q < 0.6 or not ref.das:
+                self.emit(['A', self.new_da()])
+            elif q < 0.8:
+                self.emit(['A', rng.choice(list(ref.das))])                     # an object the image may already hold
+            else:
+                self.emit(['A', self.new_da(rng.choice(list(ref.nds)))])         # new data array sharing an ndarray
+        elif r < 0.98:
+            self.emit(['P', rng.randrange(-n, n)])
+        elif r < 0.99:
+            self.emit(['R', rng.choice(W_INTENTS)])
+        else:
+            self.emit(['V', rng.choice(['1.0', '1', '1.1'])])
+
+
+def rand_whist(rng):
+    exact = rng.random() < 0.35           # histories with a re-load use float32 values the ASCII text holds exactly
+    gen = _WGen(rng, exact)
+    for kv in rand_meta(rng):
+        gen.emit(['G'] + kv)
+    for lab in rand_labels(rng)[:2]:
+        gen.emit(['L'] + lab)
+    for _ in range(rng.choice([1, 1, 2, 3])):
+        gen.emit(['A', gen.new_da()])
+    for _ in range(rng.choice([1, 2, 2, 3])):
+        if exact and gen.ref.reloadable() and rng.random() < 0.5:
+            gen.nid += 100
+            gen.emit(['Y', rng.choice(['to_bytes', 'to_filename', 'to_xml']), gen.nid])
+            gen.nid += 20
+        else:
+            gen.emit(_rand_ser(rng, False))
+        for _ in range(rng.choice([1, 1, 2, 3])):
+            gen.mutate()
+    gen.emit(_rand_ser(rng, False))
+    return gen.ops
+
+
+def whist_cases(rng, tier):
+    out = []
+    # systematic: every encoding x dtype x kind of change between two serialisations x serialisation method pair
+    k = 0
+    for enc in ENC_SPEC:
+        for dt in DTYPES:
+            for change in ('inplace', 'rebind', 'enc', 'ord', 'meta', 'pop-add'):
+                k += 1
+                m1, m2 = SER_METHODS[k % len(SER_METHODS)], SER_METHODS[(k // 2 + 3) % len(SER_METHODS)]
+                shape = [[4], [2, 3], [2, 1, 2]][k % 3]
+                n = int(np.prod(shape))
+                b0 = rand_bits_w(rng, dt, n, True)
+                b1 = rand_bits_w(rng, dt, n, True)
+                if b1 == b0:
+                    b1 = b0[1:] + [b0[0] ^ 1]
+                ops = [['G', 'k&', '<v>'], ['N', 1, dt, shape, b0, {}],
+                       ['O', 2, 1, {'intent': 1008, 'dt': None, 'enc': enc, 'ord': 'CF'[k % 2], 'endian': 'little',
+                                    'meta': [['Name', 'a<b']], 'cs': None, 'fname': '', 'off': 0}],
+                       ['N', 3, 'int32', [2], [7, 8], {}],
+                       ['O', 4, 3, {'intent': 2005, 'dt': None, 'enc': enc, 'ord': 'C', 'endian': 'big', 'meta': [],
+                                    'cs': None, 'fname': '', 'off': 0}],
+                       ['A', 2], ['A', 4], ['X', m1, SER_MODES[k % len(SER_MODES)]]]
+                if change == 'inplace':
+                    ops += [['E', 0, ['all', 'copyto', 'flat', 'elem'][k % 4], b1], ['E', 1, 'all', [9, 8]]]
+                elif change == 'rebind':
+                    ops += [['N', 5, dt, shape, b1, {}], ['F', 0, 'data', 5]]
+                elif change == 'enc':
+                    ops += [['F', 0, 'enc', [e for e in ENC_SPEC if e != enc][k % 2]]]
+                elif change == 'ord':
+                    ops += [['F', 0, 'ord', 'FC'[k % 2]]]
+                elif change == 'meta':
+                    ops += [['F', 0, 'mset', ['Name', 'b>a']], ['G', 'k2', 'é']]
+                else:
+                    ops += [['P', 0], ['N', 5, dt, shape, b1, {}],
+                            ['O', 6, 5, {'intent': 1008, 'dt': None, 'enc': enc, 'ord': 'C', 'endian': 'little', 'meta': [],
+                                         'cs': None, 'fname': '', 'off': 0}], ['A', 6]]
+                ops += [['X', m2, None]]
+                if change == 'inplace':
+                    ops += [['E', 0, 'all', b0], ['X', m1, None]]
+                out.append(mk_whist(ops, 'whist-grid'))
+    for _ in range({'quick': 1200, 'thorough': 15000, 'search': 1500}[tier]):
+        out.append(mk_whist(rand_whist(rng), 'whist'))
+    return out
+
+
+def shrink_whist(case):
+    ops = case.data['ops']
+    for i in range(len(ops) - 1, -1, -1):
+        rest = ops[:i] + ops[i + 1:]
+        try:
+            yield mk_whist(rest, case.stream)
+        except Exception:
+            continue
+    for i, op in enumerate(ops):
+        if op[0] == 'X' and (op[1] != 'to_xml' or op[2] is not None):
+            yield mk_whist(ops[:i] + [['X', 'to_xml', None]] + ops[i + 1:], case.stream)
+        if op[0] == 'Y':
+            try:
+                yield mk_whist(ops[:i] + [['X', 'to_xml', None]] + ops[i + 1:], case.stream)
+            except Exception:
+                pass
+        if op[0] == 'O' and (op[3]['meta'] or op[3]['cs'] is not None):
+            try:
+                yield mk_whist(ops[:i] + [op[:3] + [dict(op[3], meta=[], cs=None)]] + ops[i + 1:], case.stream)
+            except Exception:
+                pass
+        if op[0] == 'N' and len(op) > 5 and (op[5].get('swap') or op[5].get('fmem')):
+            yield mk_whist(ops[:i] + [op[:5] + [{}]] + ops[i + 1:], case.stream)
+
+
+# ------------------------------------------------------------------------------------------ gen (translated methods)
+
+def mk_gen(fn, arg, das):
+    """fn in numDA|get|rm ; arg = intent argument (int | str | None for numDA) ; das = [[id, intent], ...]"""
+    line = ' '.join(['C17 gen', fn, '_' if arg is None else arg_tok(arg), ','.join('%d:%d' % (i, it) for i, it in das) or '-'])
+    return Case(line, {'op': 'gen', 'fn': fn, 'arg': arg, 'das': [list(x) for x in das]},
+                ('gen', fn, json.dumps(arg), json.dumps(das)), 'gen')
+
+
+def impl_gen(case):
+    g, p, u, n1 = _mods()
+    d = case.data
+    img = g.GiftiImage()
+    ident = {}
+    objs = {}
+    for i, it in d['das']:
+        if i not in objs:
+            objs[i] = g.GiftiDataArray(np.zeros(1, np.uint8))
+            objs[i].intent = it
+            ident[id(objs[i])] = i
+        img.darrays.append(objs[i])
+    try:
+        if d['fn'] == 'numDA':
+            return str(int(img.numDA))
+        if d['fn'] == 'get':
+            return lst([ident[id(x)] for x in img.get_arrays_from_intent(py_arg(d['arg']))])
+        img.remove_gifti_data_array_by_intent(py_arg(d['arg']))
+        return lst([ident[id(x)] for x in img.darrays])
+    except KeyError:
+        return 'ERR:KeyError'
+
+
+def oracle_gen(case, out):
+    d = case.data
+    if d['fn'] == 'numDA':
+        return None if out == str(len(d['das'])) else f'[gen:numDA] {out} for {len(d["das"])} arrays'
+    c = ref_code(d['arg'])
+    if c is None:
+        return None if out == 'ERR:KeyError' else f'[gen:{d["fn"]}] unknown intent {d["arg"]!r} gave {out}'
+    want = lst([i for i, it in d['das'] if (it == c) == (d['fn'] == 'get')])
+    return None if out == want else f'[gen:{d["fn"]}] {d["fn"]}({d["arg"]!r}) on {d["das"]} gave {out}, the named arrays are {want}'
+
+
+def gen_cases(rng, tier):
+    out = []
+    codes = [0, 1008, 2001]
+    for n in range(5):
+        for seq in itertools.product(codes, repeat=n):
+            das = [[i, it] for i, it in enumerate(seq)]
+            out.append(mk_gen('numDA', None, das))
+            for k, c in enumerate(codes):
+                out.append(mk_gen('get', c if (n + k) % 2 else ALIAS[c][k % 2], das))
+                out.append(mk_gen('rm', ALIAS[c][(k + 1) % 2] if (n + k) % 2 else c, das))
+    for _ in range({'quick': 400, 'thorough': 4000, 'search': 400}[tier]):
+        n = rng.randrange(0, 9)
+        pool = list(ALIAS)
+        das, ids = [], []
+        for i in range(n):
+            if ids and rng.random() < 0.2:
+                j = rng.choice(ids)                      # the same object twice
+                das.append([j, [x for x in das if x[0] == j][0][1]])
+            else:
+                das.append([i, rng.choice(pool)])
+                ids.append(i)
+        out.append(mk_gen(rng.choice(['get', 'rm']), rand_intent_arg(rng, pool, 0.08), das))
+    return out
+
+
 # ------------------------------------------------------------------------------------------ module API
 
 def case_from_data(d):
@@ -1143,13 +1987,17 @@ def case_from_data(d):
         return mk_raw(d['xml'], d['buf'], d.get('stream', 'xml-foreign'))
     if op == 'wevents':
         return mk_wevents(d)
+    if op == 'whist':
+        return mk_whist(d['ops'], d.get('stream', 'whist'))
+    if op == 'gen':
+        return mk_gen(d['fn'], d['arg'], d['das'])
     raise ValueError(d)
 
 
 def impl(case):
     op = case.data['op']
     return {'hist': impl_hist, 'orig': impl_orig, 'space': impl_space, 'block': impl_block, 'xml': impl_xml,
-            'wblock': impl_wblock, 'xmlraw': impl_xml, 'wevents': impl_wevents}[op](case)
+            'wblock': impl_wblock, 'xmlraw': impl_xml, 'wevents': impl_wevents, 'whist': impl_whist, 'gen': impl_gen}[op](case)
 
 
 def oracle(case, out):
@@ -1162,6 +2010,10 @@ def oracle(case, out):
         return oracle_xml(case, out)
     if op == 'wblock':
         return oracle_wblock(case, out)
+    if op == 'whist':
+        return oracle_whist(case, out)
+    if op == 'gen':
+        return oracle_gen(case, out)
     return None
 
 
@@ -1195,6 +2047,9 @@ def shrink_candidates(case):
                     ids.add(o[1])
             if ok:
                 yield mk_hist(rest, case.stream)
+        return
+    if d['op'] == 'whist':
+        yield from shrink_whist(case)
         return
     if d['op'] != 'xml':
         return
@@ -1531,4 +2386,5 @@ def edge_cases(rng, tier):
 
 def cases(rng, tier):
     return spec_cases(rng, tier) + hist_cases(rng, tier) + block_cases(rng, tier) + wblock_cases(rng, tier) + \
-        xml_cases(rng, tier) + edge_cases(rng, tier) + foreign_cases(rng, tier) + wevents_cases(rng, tier)
+        xml_cases(rng, tier) + edge_cases(rng, tier) + foreign_cases(rng, tier) + wevents_cases(rng, tier) + \
+        whist_cases(rng, tier) + gen_cases(rng, tier)
